@@ -43,7 +43,10 @@ def to_case(rec, rng, cid):
             d[k] = list(d[k])
             rng.shuffle(d[k])
         return d
-    return {"id": cid, "a": rec["a"], "c": side(rec["c"]), "s": side(rec["s"]), "exp": rec["exp"]}
+    srv = side(rec["s"])
+    if srv.get("cert") not in (None, "", "none") and rng.random() < 0.3:
+        srv["certViaCallback"] = True    # the same credential handed out by a GetCertificate callback: same policy, other code path
+    return {"id": cid, "a": rec["a"], "c": side(rec["c"]), "s": srv, "exp": rec["exp"]}
 
 
 def nvaried(rec):
